@@ -19,8 +19,9 @@
    A call is one model step.  The only thing another task can do to the wrapper while a call is parked in
    receive_stream.receive() that is modelled is feed_data(): `Until d m fs` carries, for each fetch the call makes, the
    data fed during that wait (fs = feeds in fetch order, missing = none); it is appended to the buffer before the
-   fetched chunk, also when the fetch ends in EndOfStream.  `Receive n fs` likewise (fix F43, /repo commit 767a0e0); feeds during the waits
-   of receive_exactly are not modelled.  (A concurrent second reader shrinking the buffer is not
+   fetched chunk, also when the fetch ends in EndOfStream.  `Receive n fs` likewise (fix F43, /repo commit 767a0e0), and so does
+   `Exactly n fs`: `remaining` is computed before the await, the chunk is appended behind whatever was fed meanwhile
+   and the loop looks at the buffer again.  (A concurrent second reader shrinking the buffer is not
    modelled.)  CANCELLATION: the C-ops run the call in a cancel scope; k = 0: the call is cancelled at entry, before it
    touched anything (what any implementation that checkpoints first does in an already cancelled scope; HEAD has no
    such checkpoint, the harness uses k = 0 only when the implementation was observed to behave so); k >= 1: the k-th
@@ -37,11 +38,11 @@ Record st := mk { knd : kind; buf : list Z; src : list (list Z) }.
 
 Inductive op :=
 | Receive (n : Z) (fs : list (list Z))              (* await s.receive(n); fs = feed_data during its waits *)
-| Exactly (n : Z)                                   (* await s.receive_exactly(n) *)
+| Exactly (n : Z) (fs : list (list Z))              (* await s.receive_exactly(n); fs = feed_data during its waits *)
 | Until (d : list Z) (m : Z) (fs : list (list Z))   (* await s.receive_until(d, m); fs = feed_data during its waits *)
 | Feed (d : list Z)                                 (* s.feed_data(d) between calls *)
 | CReceive (k : nat) (n : Z) (fs : list (list Z))   (* the same calls in a scope that is cancelled: see above *)
-| CExactly (k : nat) (n : Z)
+| CExactly (k : nat) (n : Z) (fs : list (list Z))
 | CUntil (k : nat) (d : list Z) (m : Z) (fs : list (list Z)).
 
 Inductive res :=
@@ -131,19 +132,23 @@ Definition do_receive (p : bool) (cn : nat) (s : st) (n : Z) (fs : list (list Z)
   end.
 
 (* ---- receive_exactly (lines 97-125): one loop iteration per unit of fuel ---- *)
-Fixpoint exactly_loop (fuel : nat) (cn : nat) (s : st) (n : Z) : st * res * list Z :=
+Fixpoint exactly_loop (fuel : nat) (cn : nat) (s : st) (n : Z) (fs : list (list Z)) : st * res * list Z :=
   match fuel with
   | O => (s, RFuel, [])
   | S f =>
-      let remaining := (n - Z.of_nat (length (buf s)))%Z in
+      let remaining := (n - Z.of_nat (length (buf s)))%Z in          (* computed BEFORE the await *)
       if (remaining <=? 0)%Z then
         (mk (knd s) (skipn (cut n (buf s)) (buf s)) (src s), RBytes (firstn (cut n (buf s)) (buf s)), [])
       else if hit cn then (s, RCancelled, [])            (* what earlier fetches brought in stays buffered *)
       else
+        let fd := hd [] fs in                            (* feed_data(fd) by another task during the wait *)
+        let b1 := buf s ++ fd in
         match pull (knd s) (match knd s with KByte => Z.to_nat remaining | KObject => default_max end) (src s) with
-        | None => (s, RIncomplete, [])
+        | None => (mk (knd s) b1 (src s), RIncomplete, fd)
         | Some (c, r) =>
-            let '(s', out, lg) := exactly_loop f (pred cn) (mk (knd s) (buf s ++ c) r) n in (s', out, c ++ lg)
+            (* `self._buffer.extend(chunk)`: behind whatever was fed meanwhile; the next iteration looks at the buffer
+               as it is then, so the call hands out the first n bytes in arrival order whatever arrived *)
+            let '(s', out, lg) := exactly_loop f (pred cn) (mk (knd s) (b1 ++ c) r) n (tl fs) in (s', out, fd ++ c ++ lg)
         end
   end.
 
@@ -151,9 +156,9 @@ Fixpoint exactly_loop (fuel : nat) (cn : nat) (s : st) (n : Z) : st * res * list
 Definition measure (l : list (list Z)) : nat := length l + length (concat l).
 Definition fuel_of (s : st) : nat := S (measure (src s)).
 
-Definition do_exactly (p : bool) (cn : nat) (s : st) (n : Z) : st * res * list Z :=
+Definition do_exactly (p : bool) (cn : nat) (s : st) (n : Z) (fs : list (list Z)) : st * res * list Z :=
   if negb p && (n <? 0)%Z then (s, RValueError, [])      (* HEAD: ValueError("nbytes must not be negative") *)
-  else exactly_loop (fuel_of s) cn s n.
+  else exactly_loop (fuel_of s) cn s n fs.
 
 (* ---- bytearray.find(d, off): lowest i >= off with b[i:i+|d|] == d ---- *)
 Fixpoint prefixb (d l : list Z) : bool :=
@@ -203,11 +208,11 @@ Fixpoint until_loop (p : bool) (fuel : nat) (cn : nat) (s : st) (d : list Z) (m 
 Definition step_gen (p : bool) (s : st) (o : op) : st * res * list Z :=
   match o with
   | Receive n fs => do_receive p 0 s n fs
-  | Exactly n => do_exactly p 0 s n
+  | Exactly n fs => do_exactly p 0 s n fs
   | Until d m fs => until_loop p (fuel_of s) 0 s d m 0 fs
   | Feed d => (mk (knd s) (buf s ++ d) (src s), RNone, d)
   | CReceive k n fs => match k with O => (s, RCancelled, []) | _ => do_receive p k s n fs end
-  | CExactly k n => match k with O => (s, RCancelled, []) | _ => do_exactly p k s n end
+  | CExactly k n fs => match k with O => (s, RCancelled, []) | _ => do_exactly p k s n fs end
   | CUntil k d m fs => match k with O => (s, RCancelled, []) | _ => until_loop p (fuel_of s) k s d m 0 fs end
   end.
 
@@ -286,8 +291,8 @@ Fixpoint arrived_run (s : st) (ops : list op) : list Z :=
 Definition no_feed (o : op) : bool :=
   match o with
   | Feed _ => false
-  | Receive _ fs | CReceive _ _ fs | Until _ _ fs | CUntil _ _ _ fs => match fs with [] => true | _ => false end
-  | _ => true
+  | Receive _ fs | CReceive _ _ fs | Until _ _ fs | CUntil _ _ _ fs | Exactly _ fs | CExactly _ _ fs =>
+      match fs with [] => true | _ => false end
   end.
 Definition chunks_nonempty (l : list (list Z)) : Prop := forall c, In c l -> c <> [].
 
@@ -305,6 +310,7 @@ Definition observe (s : st) (r : res) : list Z :=
         op = 0 n | 1 n | 2 m len delimiter-bytes | 3 len bytes | 4 m len delimiter-bytes nfeeds (len :: bytes)*
            | 5 k n | 6 k n | 7 k m len delimiter-bytes nfeeds (len :: bytes)*   (cancelled receive / exactly / until)
            | 8 n nfeeds (len :: bytes)* | 9 k n nfeeds (len :: bytes)*          (receive with feeds during its waits)
+           | 10 n nfeeds (len :: bytes)* | 11 k n nfeeds (len :: bytes)*        (receive_exactly with feeds during its waits)
         (op 2 = receive_until without feeds during the call; cases written before ops 4-7 existed decode unchanged) ---- *)
 Definition take_list (l : list Z) : list Z * list Z :=
   match l with
@@ -325,7 +331,7 @@ Fixpoint decode_ops (fuel : nat) (l : list Z) : list op :=
   | S f =>
       match l with
       | 0%Z :: n :: r => Receive n [] :: decode_ops f r
-      | 1%Z :: n :: r => Exactly n :: decode_ops f r
+      | 1%Z :: n :: r => Exactly n [] :: decode_ops f r
       | 2%Z :: m :: r => let '(d, r') := take_list r in Until d m [] :: decode_ops f r'
       | 3%Z :: r => let '(d, r') := take_list r in Feed d :: decode_ops f r'
       | 4%Z :: m :: r =>
@@ -335,7 +341,7 @@ Fixpoint decode_ops (fuel : nat) (l : list Z) : list op :=
           | [] => []
           end
       | 5%Z :: k :: n :: r => CReceive (zn k) n [] :: decode_ops f r
-      | 6%Z :: k :: n :: r => CExactly (zn k) n :: decode_ops f r
+      | 6%Z :: k :: n :: r => CExactly (zn k) n [] :: decode_ops f r
       | 7%Z :: k :: m :: r =>
           let '(d, r') := take_list r in
           match r' with
@@ -344,6 +350,8 @@ Fixpoint decode_ops (fuel : nat) (l : list Z) : list op :=
           end
       | 8%Z :: n :: nf :: r => let '(fs, r3) := decode_chunks (zn nf) r in Receive n fs :: decode_ops f r3
       | 9%Z :: k :: n :: nf :: r => let '(fs, r3) := decode_chunks (zn nf) r in CReceive (zn k) n fs :: decode_ops f r3
+      | 10%Z :: n :: nf :: r => let '(fs, r3) := decode_chunks (zn nf) r in Exactly n fs :: decode_ops f r3
+      | 11%Z :: k :: n :: nf :: r => let '(fs, r3) := decode_chunks (zn nf) r in CExactly (zn k) n fs :: decode_ops f r3
       | _ => []
       end
   end.
